@@ -8,12 +8,15 @@ package c11
 // parsers behind the container see it.
 
 import (
+	"archive/tar"
 	"archive/zip"
 	"bytes"
+	"compress/gzip"
 	"compress/zlib"
 	"encoding/binary"
 	"fmt"
 	"io"
+	"strconv"
 	"strings"
 
 	"github.com/beevik/etree"
@@ -129,6 +132,40 @@ func xmlMutate(t *rapid.T, src []byte) ([]byte, string, bool) {
 	return out, "xml-" + what, true
 }
 
+// controlMutate changes a Debian control file line-wise.
+func controlMutate(t *rapid.T, body []byte) ([]byte, string) {
+	lines := strings.Split(string(body), "\n")
+	at := rapid.IntRange(0, len(lines)).Draw(t, "control_line")
+	op := rapid.SampledFrom([]string{"empty-line", "empty-line", "no-colon", "leading-space-first", "colon-only", "dup-field", "huge-value", "drop-line", "nul", "tab-line"}).Draw(t, "control_op")
+	ins := func(l string) {
+		lines = append(lines[:at], append([]string{l}, lines[at:]...)...)
+	}
+	switch op {
+	case "empty-line":
+		ins("")
+	case "no-colon":
+		ins("JustAWordWithoutColon")
+	case "leading-space-first":
+		at = 0
+		ins(" continuation before any field")
+	case "colon-only":
+		ins(":")
+	case "dup-field":
+		ins("Package: another")
+	case "huge-value":
+		ins("Description: " + strings.Repeat("x", rapid.SampledFrom([]int{5000, 70000, 300000}).Draw(t, "huge")))
+	case "drop-line":
+		if at < len(lines) {
+			lines = append(lines[:at], lines[at+1:]...)
+		}
+	case "nul":
+		ins("Field\x00: v\x00")
+	case "tab-line":
+		ins("\t")
+	}
+	return []byte(strings.Join(lines, "\n")), fmt.Sprintf("%s at line %d", op, at)
+}
+
 // innerContent mutates the content of a member / document: as XML when it is XML (half of
 // the time), else with the byte-level mutator.
 func innerContent(t *rapid.T, b *base, content []byte) ([]byte, []string) {
@@ -210,6 +247,59 @@ func innerMutate(t *rapid.T, b *base, src []byte) (out []byte, ops []string, ok 
 			ops = append(ops, "xar toc: "+m)
 		}
 		return append(append(hdr, z.Bytes()...), src[hs+tl:]...), ops, true
+	case b.format == "deb":
+		// ar member control.tar.gz: gunzip, untar, change the control file as text, pack again
+		if !bytes.HasPrefix(src, []byte("!<arch>\n")) {
+			return nil, nil, false
+		}
+		pos := 8
+		for pos+60 <= len(src) {
+			h := src[pos : pos+60]
+			size, err := strconv.Atoi(strings.TrimSpace(string(h[48:58])))
+			if err != nil || pos+60+size > len(src) {
+				return nil, nil, false
+			}
+			name := strings.TrimSuffix(strings.TrimSpace(string(h[:16])), "/")
+			if name != "control.tar.gz" {
+				pos += 60 + size + size%2
+				continue
+			}
+			zr, err := gzip.NewReader(bytes.NewReader(src[pos+60 : pos+60+size]))
+			if err != nil {
+				return nil, nil, false
+			}
+			tr := tar.NewReader(zr)
+			var out bytes.Buffer
+			gz := gzip.NewWriter(&out)
+			tw := tar.NewWriter(gz)
+			for {
+				th, err := tr.Next()
+				if err != nil {
+					break
+				}
+				body, _ := io.ReadAll(tr)
+				if strings.TrimPrefix(th.Name, "./") == "control" {
+					var what string
+					body, what = controlMutate(t, body)
+					ops = append(ops, "deb control file: "+what)
+					th.Size = int64(len(body))
+				}
+				tw.WriteHeader(th)
+				tw.Write(body)
+			}
+			tw.Close()
+			gz.Close()
+			if len(ops) == 0 {
+				return nil, nil, false
+			}
+			hdr := []byte(fmt.Sprintf("%-16s%s%-10d`\n", "control.tar.gz", string(h[16:48]), out.Len()))
+			res := append(append(append([]byte{}, src[:pos]...), hdr...), out.Bytes()...)
+			if out.Len()%2 == 1 {
+				res = append(res, '\n')
+			}
+			return append(res, src[pos+60+size+size%2:]...), ops, true
+		}
+		return nil, nil, false
 	case looksXML(src) && !strings.HasPrefix(b.format, "pgp"):
 		if out, what, ok := xmlMutate(t, src); ok {
 			return out, []string{what}, true
